@@ -3,9 +3,11 @@
 
   Source modelled, statement by statement (tree = /repo + fixes/C13-forward-metric.patch +
   fixes/C15-max-hops.patch):
-    internal/flood/flood.go      HandleRouteAdvertise, floodAdvertisementEncrypted, floodFrame,
-                                 AnnounceLocalRoutes, SendFullTable, cleanupSeenCache
-    internal/routing/manager.go  AddLocal*Route, Process*RouteAdvertise, CleanupStale*Routes
+    internal/flood/flood.go      HandleRouteAdvertise, HandleRouteWithdraw, floodAdvertisementEncrypted,
+                                 floodWithdrawal, floodFrame, AnnounceLocalRoutes, WithdrawLocalRoutes,
+                                 SendFullTable, cleanupSeenCache
+    internal/routing/manager.go  AddLocal*Route, Process*RouteAdvertise, ProcessRouteWithdraw,
+                                 CleanupStale*Routes
     internal/routing/{table,domain,forward,agent}.go   AddRoute (update rule, loop check)
 
   Nodes are small naturals.  Links are symmetric.  Every node has a seen cache (set of
